@@ -102,7 +102,9 @@ var c13SplitFaults = [][2]string{
 	{"@if(true", " true)x@end"},
 	{"{{ x = 1;", " # }}"},
 	{"@each(v in [1]", " 2)x@end"},
-	{"@if(true)a@else b", "@elseif(true)c@end"}, // the offending token is the @elseif that follows an @else
+	{"@if(true)a@else b", "@elseif(true)c@end"},
+	{"{{ 1 +", "# }}"}, // the illegal character is the first one on its line
+	{"@if(", "~)x@end"}, // the offending token is the @elseif that follows an @else
 }
 
 // HarnessC13Split: the offending token of the faulty construct follows a symbolic line break inside the construct;
